@@ -380,6 +380,14 @@ Definition arrays_of_stream_gated (compat : list str) (cur : str) (b : list byte
   | o => GOther o
   end.
 
+(* the three messages are representable: every field fits its Go type (wf_array32) and
+   every section body is shorter than 2^63 bytes (pbcmpl's make([]byte, BodySize)) *)
+Definition arrays_fit (a : warray * warray * warray) : bool :=
+  let '(ch, st, lv) := a in
+  wf_array32 ch && wf_array32 st && wf_array32 lv &&
+  (blen (ser_array32 ch) <? two63)%N && (blen (ser_array32 st) <? two63)%N &&
+  (blen (ser_array32 lv) <? two63)%N.
+
 (* ------------------------------------------------------------------ *)
 (* 5. the two ends                                                      *)
 (* ------------------------------------------------------------------ *)
